@@ -5,20 +5,81 @@ filter, take, skip, take_while, skip_until, zip, add, aggregate, enumerate, wind
 group, distinct, with_count, repeat (finite and infinite), len, last, get, reduce) on finite and
 infinite sources (count(), successors) and records every stream by list semantics; every
 generator is then consumed twice and both consumptions must give the recorded elements; taking
-a finite prefix of an infinite pipeline must terminate."""
+a finite prefix of an infinite pipeline must terminate.
+
+Laziness is decided by XrBound's provenance model: for every pipeline over an infinite source
+whose successor function prints, TLC computes how many source elements the demanded elements
+need; the number actually evaluated (lines printed) must lie between that and that plus a
+constant look-ahead per adaptor."""
+import json
+import random
+
 import poolcheck
+import vf
 
 LEVEL = "model_checking"
+LIM = {"search": 3000, "calls": 30000, "size": 60000000, "depth": 300, "recursion": 400}
+
+
+def laziness(chk, tier, seed):
+    rnd = random.Random(seed)
+    r = vf.tlc("XrBound", "XrBound_quick.cfg" if tier == "quick" else "XrBound.cfg", "c16-bound", workers=8, timeout=3000, xmx="8g")
+    if not r.ok:
+        raise vf.ToolError("XrBound failed:\n" + r.out[-2500:])
+    chk.add_tlc(r)
+    cases = [c for c in r.cases() if c["source"] == "obs" and c["verdict"]["v"] == "value"]
+    if len(cases) > 4000:
+        cases = rnd.sample(cases, 4000)
+    jobs = [{"id": "lz%d" % i, "src": "let v0 = %s;\n" % c["src"], "observe": ["v0"], "limits": LIM, "timeout_ms": 20000, "max_elems": 64} for i, c in enumerate(cases)]
+    res = vf.run_jobs(jobs, "c16-lazy", timeout_ms=20000)
+    within = over = 0
+    for j, c in zip(jobs, cases):
+        o = res[j["id"]]
+        oc = vf.job_outcome(o)
+        chk.count(1)
+        chk.nontrivial(c["src"])
+        key = "lazy:" + c["sink"] + ":" + ".".join(x.split("(")[0] for x in c["src"].split(").")[1:-1])
+        if oc != "ok":
+            chk.violation("%s needs %d source elements but evaluation ended with %s" % (c["src"], c["need"], oc),
+                          {"kind": "lazy", "source": j["src"], "need": c["need"], "slack": c["slack"], "value": c["verdict"]["x"]}, finding_key=key)
+            continue
+        lines = len([x for x in (o.get("stdout") or "").split("\n") if x != ""])
+        lo, hi = max(c["need"] - 1, 0), max(c["need"] - 1, 0) + c["slack"]
+        if lo <= lines <= hi:
+            within += 1
+        else:
+            over += 1
+            chk.violation("%s: %d source elements were evaluated, the demanded elements need %d (look-ahead allowance %d)" % (c["src"], lines + 1, c["need"], c["slack"]),
+                          {"kind": "lazy", "source": j["src"], "need": c["need"], "slack": c["slack"], "value": c["verdict"]["x"], "evaluated": lines + 1}, finding_key=key)
+    chk.part("laziness", pipelines=len(cases), within_bound=within, outside=over)
+    if cases:
+        chk.sample({"lazy_pipeline": cases[len(cases) // 2]})
 
 
 def run(chk, tier, seed):
-    n = 800 if tier == "quick" else 10000
+    n = 3000 if tier == "quick" else 10000
     poolcheck.run_pool(chk, "XrGen", "XrGen.cfg", "c16", n, 11, seed, kind="generator",
                        limits={"calls": 200000, "depth": 400})
+    laziness(chk, tier, seed)
     chk.cov["rule"] = ("TLC -simulate walks of the XrGen pool machine: 9 operations per program, every generator consumed "
-                       "twice (to_array / take(6).to_array()); non-trivial = distinct rendered program")
-    chk.assumptions += ["evaluated-prefix bounds are observed as termination of finite consumptions of infinite pipelines, not as exact pull counts"]
+                       "twice (to_array / take(6).to_array()); XrBound: every pipeline of <= 1 (quick) / 2 (thorough) adaptors x 14 sinks over "
+                       "a printing infinite source with the model's needed-prefix; non-trivial = distinct rendered program")
+    chk.assumptions += ["evaluated prefixes are observed through a successor function that prints (one line per evaluated element); "
+                        "the allowance is 1 element per adaptor (k + 1 for windows / chunks of k) plus 1 for the source"]
 
 
 def replay(chk, path):
-    return poolcheck.replay_pool(chk, path)
+    rp = json.load(open(path))
+    if rp.get("kind") != "lazy":
+        return poolcheck.replay_pool(chk, path)
+    o = vf.run_jobs([{"id": "r", "src": rp["source"], "observe": ["v0"], "limits": LIM, "timeout_ms": 20000, "max_elems": 64}], "replay")["r"]
+    oc = vf.job_outcome(o)
+    lines = len([x for x in (o.get("stdout") or "").split("\n") if x != ""])
+    chk.count(1)
+    chk.nontrivial("replay")
+    chk.nontrivial(rp["source"])
+    chk.sample({"source": rp["source"], "outcome": oc, "evaluated": lines + 1, "need": rp["need"], "slack": rp["slack"]})
+    lo = max(rp["need"] - 1, 0)
+    if oc != "ok" or not (lo <= lines <= lo + rp["slack"]):
+        chk.violation("still outside the bound", rp)
+    return chk.finish()
